@@ -7,7 +7,7 @@ import numpy as np
 ID = "C14"
 PROPS_FILE = "theories/Props/C14.v"
 EXTRACT = ("theories/Extract/XC14.v", "c14",
-           ["entry_mec_ok", "entry_chrystal_many", "entry_sweep_many", "entry_feret_max", "entry_feret_min_ok",
+           ["entry_mec_ok", "entry_chrystal_many", "entry_sweep_many", "entry_feret_max", "entry_feret_min_ok", "entry_feret_lower_ok",
             "entry_fill_model", "entry_fill_check"])
 PYX = {}
 RULE = ("label images of 1-20 objects drawn from: single pixel, two pixels, collinear runs (horizontal, vertical, "
@@ -28,7 +28,9 @@ TRUSTED = [
 ASSUMPTIONS = ["pixel coordinates are small non-negative integers (< 2^15), so integer products are exact in float64",
                "index lists hold distinct positive labels, at least one of them present in the image"]
 EXHAUSTIVE = {"quick": False, "thorough": False}
-CASE_TIMEOUT = 20
+CASE_TIMEOUT = 12
+FN_TIMEOUT = 3          # seconds per function call inside one case (a hang is a failure of the property)
+_TIMEOUTS = [0]
 TOL_MEC = 1e-7
 TOL_FERET = 1e-9
 
@@ -218,7 +220,11 @@ def _clean(a):
 
 
 def impl(case):
+    import signal
     from centrosome import cpmorphology as M
+    if _TIMEOUTS[0] >= 3:
+        # three calls already hung in this worker: do not spend FN_TIMEOUT on each remaining case
+        return {"skipped": "after repeated timeouts"}
     lab = np.array(case["labels"], int)
     idx = list(case["indexes"])
     hull, cnt = M.convex_hull(lab, idx)
@@ -243,9 +249,14 @@ def impl(case):
 
     def guard(name, f):
         try:
+            signal.alarm(FN_TIMEOUT)     # handler installed by harness.worker raises TimeoutError
             out[name] = f()
         except Exception as e:      # noqa: an exception of one function must not hide the others
+            if isinstance(e, TimeoutError):
+                _TIMEOUTS[0] += 1
             out[name] = {"exc": type(e).__name__, "msg": str(e)[:200]}
+        finally:
+            signal.alarm(0)
 
     def mec():
         if order == "fwd":
@@ -270,7 +281,11 @@ def impl(case):
 
 
 def _bad(o):
-    return (not isinstance(o, dict)) or "exc" in o or "crash" in o
+    return (not isinstance(o, dict)) or "exc" in o or "crash" in o or "skipped" in o
+
+
+def _skipped(o):
+    return isinstance(o, dict) and "skipped" in o
 
 
 def _exc(o):
@@ -380,6 +395,8 @@ def _close(a, b, tol):
 
 
 def compare(case, out, m):
+    if _skipped(out):
+        return None
     if _bad(out):
         return "implementation raised/crashed: %s" % (str(out)[:300],)
     if m is None or isinstance(m.get("mec"), dict):
@@ -428,6 +445,8 @@ def check(ctx, cases, outs):
     res = [None] * len(cases)
     jobs = []      # (case k, object q, args)
     for k, (case, out) in enumerate(zip(cases, outs)):
+        if _skipped(out):
+            continue
         if _bad(out):
             res[k] = "implementation raised/crashed on a valid input: %s" % (str(out)[:300],)
             continue
@@ -485,10 +504,36 @@ def _best_edge(pix, h):
     return best
 
 
+def _cones(pix, h):
+    """Proposed certificate that no enclosing strip in ANY direction is narrower than the narrowest
+    edge strip: the critical directions (+/- edge normals, angular order) and, per cone between two
+    consecutive ones, the pair of pixels extreme in the cone's middle direction."""
+    n = len(h)
+    dirs = set()
+    for q in range(n):
+        a, b = h[q], h[(q + 1) % n]
+        m = (-(b[1] - a[1]), b[0] - a[0])
+        g = math.gcd(abs(m[0]), abs(m[1]))
+        if g == 0:
+            continue
+        m = (m[0] // g, m[1] // g)
+        dirs.add(m)
+        dirs.add((-m[0], -m[1]))
+    ms = sorted(dirs, key=lambda m: math.atan2(m[1], m[0]))
+    P = np.array(pix, dtype=np.int64)
+    cert = []
+    for k, m in enumerate(ms):
+        m2 = ms[(k + 1) % len(ms)]
+        mid = (m[0] + m2[0], m[1] + m2[1])
+        v = P[:, 0] * mid[0] + P[:, 1] * mid[1]
+        cert.append([list(m), [pix[int(np.argmax(v))], pix[int(np.argmin(v))]]])
+    return cert
+
+
 def _check_feret_fill(ctx, cases, outs, res):
-    mx_jobs, mn_jobs, fl_jobs = [], [], []
+    mx_jobs, mn_jobs, fl_jobs, lo_jobs = [], [], [], []
     for k, (case, out) in enumerate(zip(cases, outs)):
-        if res[k] is not None:
+        if res[k] is not None or _bad(out):
             continue
         fer = out["feret"]
         objs = _objects(case, out)
@@ -515,6 +560,7 @@ def _check_feret_fill(ctx, cases, outs, res):
                           "edge has width %r (edge %s-%s)" % (q, l, fmin, math.sqrt(w), a, b))
                 break
             mn_jobs.append((k, q, [pix, h, [a, b], [w.numerator, w.denominator]]))
+            lo_jobs.append((k, q, [pix, _cones(pix, h) if w > 0 else [], [w.numerator, w.denominator]]))
         if res[k] is None:
             rows = sorted(out["fill"], key=lambda t: (t[2], t[0], t[1]))
             fl_jobs.append((k, [[[l, h] for (l, _, h) in objs if h], rows]))
@@ -530,6 +576,12 @@ def _check_feret_fill(ctx, cases, outs, res):
             if res[k] is None and r != 1:
                 res[k] = ("feret_diameter: object %d: the verified checker feret_min_ok rejects the minimum width^2 %s/%s "
                           "(hull %s)" % (q, a[3][0], a[3][1], a[1]))
+    if lo_jobs:
+        rs = ctx.run_model("entry_feret_lower_ok", [j[2] for j in lo_jobs])
+        for (k, q, a), r in zip(lo_jobs, rs):
+            if res[k] is None and r != 1:
+                res[k] = ("feret_diameter: object %d: the verified checker feret_lower_ok does not confirm that no enclosing "
+                          "pair of parallel lines is closer than sqrt(%s/%s)" % (q, a[2][0], a[2][1]))
     if fl_jobs:
         rs = ctx.run_model("entry_fill_check", [j[1] for j in fl_jobs])
         for (k, a), r in zip(fl_jobs, rs):
